@@ -11,7 +11,7 @@ from values import Unsupported
 from interp import Machine, Stats, Violation
 from mirparse import Program
 from resolve import Resolver
-import models_core, models_coll, models_iter, models_text  # noqa: F401 (register models)
+import models_core, models_coll, models_iter, models_text, models_rand  # noqa: F401 (register models)
 
 _G = {}
 
@@ -112,7 +112,7 @@ def run_harness(hname, shapes, opts, procs=16):
         out = []
         for r in pool.imap_unordered(_worker, jobs, chunksize=1):
             out.append(r)
-            if r['violations'] and opts.get('stop_on_violation', True) and opts.get('first_only', False):
+            if (r['violations'] or r['bounds']) and opts.get('stop_on_violation', True) and opts.get('first_only', False):
                 pool.terminate()
                 break
         return out
